@@ -64,6 +64,7 @@ func VC14_RequestURI() {
 		s, _ := a.GetSIPURI()
 		checkSIPURIParts(s, u, "request-uri")
 	}
+	rt.Assert(a.String() == u.text, "addr-spec: reading the components does not change what is re-encoded")
 	rt.Observe("out", a.String())
 	rt.Reach("end")
 }
@@ -173,6 +174,7 @@ func VC14_Via() {
 			}
 		}
 	}
+	rt.Assert(v.String() == s, "Via: reading the components does not change what is re-encoded")
 	rt.Observe("out", v.String())
 	// the proxy stamps the first entry (received / rport): every other entry must re-encode unchanged
 	if n >= 2 && v.Size() == n && rt.Bool("stamp-first-entry") {
@@ -238,6 +240,7 @@ func VC14_Route() {
 				rt.Assert(r.GetParamCount() == len(e.params.keys), "Record-Route: number of header parameters")
 			}
 		}
+		rt.Assert(rr.String() == s, "Record-Route: reading the components does not change what is re-encoded")
 		rt.Observe("out", rr.String())
 		rt.Reach("end")
 		return
@@ -260,6 +263,7 @@ func VC14_Route() {
 			}
 		}
 	}
+	rt.Assert(r.String() == s, "Route: reading the components does not change what is re-encoded")
 	rt.Observe("out", r.String())
 	rt.Reach("end")
 }
@@ -323,6 +327,13 @@ func VC14_FromTo() {
 			h, err := t.GetHost()
 			rt.Assert(err == nil && h == u.host, "To: host accessor")
 		}
+		if u.sip {
+			if su, err := a.GetSIPURI(); err == nil {
+				su.GetPort()
+				su.GetTransport()
+			}
+		}
+		rt.Assert(t.String() == s, "To: reading the components does not change what is re-encoded")
 		rt.Observe("out", t.String())
 		rt.Reach("end")
 		return
@@ -339,6 +350,13 @@ func VC14_FromTo() {
 		g, err := f.GetTag()
 		rt.Assert(err == nil && g == tag, "From: tag accessor")
 	}
+	if u.sip {
+		if su, err := a.GetSIPURI(); err == nil {
+			su.GetPort()
+			su.GetTransport()
+		}
+	}
+	rt.Assert(f.String() == s, "From: reading the components does not change what is re-encoded")
 	rt.Observe("out", f.String())
 	rt.Reach("end")
 }
